@@ -17,7 +17,7 @@ EXTENDS Naturals, Sequences, FiniteSets, TLC, Json
 CONSTANTS Opens,       \* OPEN classes offered by the peer (subset of DOMAIN OpenDef)
           Updates,     \* UPDATE classes (subset of DOMAIN UpdDef)
           Garbage,     \* malformed-header classes (subset of DOMAIN HdrDef)
-          Stops,       \* administrative / timer events used: subset of {"ManualStop", "HoldExpires", "WriteFails", "Wait"} \cup DOMAIN NotifDef
+          Stops,       \* administrative / timer events used: subset of {"ManualStop", "HoldExpires", "WriteFails", "Wait", "ConnLost"} \cup DOMAIN NotifDef
           LocalCfg,    \* name of the local peer configuration (DOMAIN CfgDef)
           Pols,        \* policies the operator may put in place through the server ({} = none): subset of {"accept", "reject"}
           Origs,       \* prefixes another source may put into the Loc-RIB ({} = none): subset of {"o1", "o2"}
@@ -211,6 +211,12 @@ RecvNotification(n) ==
     /\ ToIdle(<<>>)
     /\ Log([a |-> "RecvNotification", n |-> n, code |-> NotifDef[n][1], sub |-> NotifDef[n][2], datalen |-> NotifDef[n][3]])
 
+(* the transport connection breaks (the peer is gone without a NOTIFICATION): RFC 4271 event 18, TcpConnectionFails *)
+ConnLost ==
+    /\ st \in {"OpenSent", "OpenConfirm", "Established"}
+    /\ ToIdle(<<>>)
+    /\ Log([a |-> "ConnLost"])
+
 HoldExpires ==
     /\ st \in {"OpenConfirm", "Established"} /\ hold # 0
     /\ ToIdle(<<Notif(4, 0)>>)
@@ -252,6 +258,7 @@ Step == \/ \E p \in Pols : SetImport(p) \/ SetExport(p)
         \/ \E n \in Stops \cap DOMAIN NotifDef : RecvNotification(n)
         \/ "HoldExpires" \in Stops /\ HoldExpires
         \/ "WriteFails" \in Stops /\ WriteFails
+        \/ "ConnLost" \in Stops /\ ConnLost
         \/ "ManualStop" \in Stops /\ ManualStop
         \/ "Wait" \in Stops /\ Len(hist) >= 1 /\ hist[Len(hist)].a # "Wait" /\ Wait
 Next == Len(hist) < MaxDepth /\ Step
